@@ -159,3 +159,36 @@ CLAIMS = {
         "note": "Not decided: byte-for-byte fixpoint of write∘load∘write for every representable state (unicode ids, duplicate orientations, rounding idempotence) - value-level, needs execution.",
     },
 }
+
+# Round-4 additions (rules added after the fourth batch of seeded changes); merged into the entries above.
+_ROUND4 = {
+    "C01": ("; order-keeping containers (list / dict) built from dict-view algebra or a set and stored into state",
+            " A list / dict / comprehension that inherits a set's order (incl. `d.keys() - xs`) and is stored into a subscript / attribute - e.g. the GEL edge map rebuilt during pruning - counts as consumed."),
+    "C04": ("; cannot-raise analysis (with total-helper summaries) of everything that shares the batch call's try and of its else branch",
+            " Inside the try that guards the batch call nothing but the call can raise, and the counters of a successful batch are read outside the guard through helpers that cannot raise - so only a failure of the batch call itself triggers the one-by-one replay (1 defect of this kind repaired: 1a64f7f)."),
+    "C05": ("; field tables of cached entries (hit-path reads vs every store site, through dict literals, comprehensions over constant tuples and helper return tuples)",
+            " Every field the T1 hit path reads out of a cached entry is put in by every store site (LRU and byte-bounded alike)."),
+    "C06": ("; record-field tables of the re-keying sibling loops (writer, boot loader) against the normaliser's record constructor",
+            " The writer's and the loader's re-keying loops set the same fields and none of the fields the normaliser persists (src / dst / rel / weight / updated_at / attrs)."),
+    "C07": ("; statelessness of the codec (module-state writes, memoised helpers whose mutable result a caller edits in place)",
+            " The delta codec keeps no state between calls: no module-level container is written and no memoised helper's mutable result is edited in place."),
+    "C09": ("; one-shot-iterator typing of arguments (generator expressions, map/filter/zip, generator calls, reducers returning them) against per-parameter walk counts of the callee",
+            " No call in the fan-out / reducer modules hands a one-shot iterator to a parameter that the callee walks more than once."),
+    "C10": ("; snapshot-at-capture check of the per-turn log buffer (copy at the call or inside the buffer's write)",
+            " The record stored in the per-turn capture buffer is a copy taken at capture time, never the caller's own dict."),
+    "C11": ("; NaN-safe polarity analysis of the threshold guard (a positive `>=` must be known true; the negation of `<` is not accepted without a finiteness test)",
+            " An episode enters a scored list only where `score >= sim_threshold` is known TRUE in all three index implementations - the negated `<` form, which admits a NaN cosine, is a violation (1 defect of this kind repaired in LanceIndex: 3ad9e10)."),
+    "C14": ("; capacity-floor obligation: the validator's accepted minimum of cache max_entries against the non-emptiness implied by each eviction-loop condition",
+            " Every popitem / popleft in an eviction loop of the containers sized by the configuration runs under a condition that implies a stored entry for every capacity the validator accepts (down to 0)."),
+    "C15": ("; escape analysis of the eviction loops (break / return / callback exception swallowed by a handler enclosing the loop)",
+            " Every eviction loop ends only when its own condition is false: no break or return, and caller-supplied callbacks are guarded inside the loop body."),
+    "C16": ("; transform whitelist of the payload between rewrite_jsonl and the bytes written (control-character replaces that keep the LF, then encode)",
+            " Inside atomic_write_text the compaction payload is only re-terminated (control-character .replace keeping the LF) and encoded - no splitlines / strip / regex that could cut a record at U+0085 / U+2028 / U+2029."),
+    "C18": ("; NaN exclusion before ordering (the threshold filter must define the list before every (-score, id) sort)",
+            " Every (-score, id) sort of the observed items runs on a list already filtered by a positive score comparison, so the key is a total order even with NaN scores in the input."),
+    "C20": ("; except-as unbinding: reads of a handler-bound name reachable from the handler's end without a new binding, over the engine / io / memory / graph / adapters packages",
+            " No name bound by `except ... as name` is read after its handler (it is unbound there), so a caught failure cannot resurface as UnboundLocalError."),
+}
+for _p, (_tech, _text) in _ROUND4.items():
+    CLAIMS[_p]["technique"] += _tech
+    CLAIMS[_p]["text"] += _text
